@@ -122,7 +122,9 @@ HKEYS = ("path", "level", "style", "arbitrary-fields", "format",
 # formatter classes / factories that render exactly as the default does:
 # naming one changes nothing the statement talks about
 FORMATTERS = ["logging.Formatter", "zcverif_dt.fmt.PlainFormatter",
-              "zcverif_dt.fmt.make"]
+              "zcverif_dt.fmt.make",
+              # ... and two without a 'style' parameter
+              "zcverif_dt.fmt.OldStyle", "zcverif_dt.fmt.make_old"]
 
 # handler sections other than <logfile> (no file, no connection made when
 # the handler is built): they count for "one handler per handler section,
@@ -1089,6 +1091,80 @@ def run_latedir_case(env, case, res):
         shutil.rmtree(casedir, ignore_errors=True)
 
 
+def run_obstacle_case(env, case, res):
+    """All handlers are built.  The directory of some of them is moved away;
+    reopenFiles() runs into it (whatever it raises); the directory comes
+    back; from then on reopenFiles() reopens and closeFiles() closes every
+    handler that is alive - none of them was forgotten on the way."""
+    res.evaluations += 1
+    mon = env.mon
+    casedir = env.newdir()
+    text = render_text(case, casedir)
+    spec = case["loggers"][0]
+    late = os.path.join(casedir, "late")
+    os.makedirs(late)
+    try:
+        with logmon.Sandbox(env.loghandler):
+            mon.clear()
+            try:
+                cfg, _ = env.loadConfigFile(env.schema, io.StringIO(text))
+                lg = cfg.loggers[0]()
+            except Exception as exc:  # noqa
+                res.violate("refused-but-must-accept", case, "accepted",
+                            exc_brief(exc), detail=text, vsig="obst-load")
+                return
+            hs = list(lg.handlers)
+            serials = [mon.serial_of(h) for h in hs]
+            for h in hs:
+                h.handle(make_record(ASCII_RECORD))
+            away = late + ".away"
+            os.rename(late, away)
+            try:
+                env.loghandler.reopenFiles()
+                first = "returned"
+            except Exception as exc:  # noqa
+                first = type(exc).__name__
+            res.sig("obstacle|%s|%s" % (first, "".join(
+                seq_handler_letter(h) for h in spec["handlers"])))
+            os.rename(away, late)
+            mon.clear()
+            try:
+                env.loghandler.reopenFiles()
+            except Exception as exc:  # noqa
+                res.violate("reopenFiles-raises", case,
+                            "every live handler reopened (the directory is "
+                            "back)", exc_brief(exc), vsig="obst-second")
+                return
+            touched = mon.serials("reopen")
+            mon.clear()
+            if sorted(touched) != sorted(serials):
+                res.violate("reopenFiles-wrong-handler-set", case,
+                            {"must_reopen": sorted(serials)},
+                            {"reopened": touched},
+                            detail="all %d file handlers are attached and "
+                            "alive; an earlier reopenFiles() met a missing "
+                            "directory (%s)" % (len(serials), first),
+                            vsig="obst-reopen")
+                return
+            for h in hs:
+                h.handle(make_record(ASCII_RECORD))
+            env.loghandler.closeFiles()
+            left = [os.path.basename(h.baseFilename) for h in hs
+                    if h.stream is not None and not h.stream.closed]
+            if left:
+                res.violate("closeFiles-stream-left-open", case,
+                            "every attached file handler closed", left,
+                            detail="an earlier reopenFiles() met a missing "
+                            "directory (%s)" % first, vsig="obst-close")
+                return
+            res.count("judged")
+            res.count("obstacle_checked")
+    finally:
+        mon.forget_all()
+        gc.collect()
+        shutil.rmtree(casedir, ignore_errors=True)
+
+
 def run_samepath_case(env, case, res):
     """Several handler sections (of one logger or of several) name the same
     file: each is a handler of its own, alive and registered; reopenFiles()
@@ -1695,6 +1771,11 @@ ROTATIONS = [
     # sizes beyond 31 / 32 bits are sizes like any other
     ("size-huge", {"max-size": "2gb", "old-files": "3"}),
     ("size-huge-no-old", {"max-size": "2147483648"}),
+    # negative numbers are numbers: on a standard stream such an option
+    # is given and therefore refused (for a file: unjudged)
+    ("old-negative", {"old-files": "-1"}),
+    ("size-negative", {"max-size": "-1kb"}),
+    ("size-and-old-negative", {"max-size": "-5", "old-files": "-2"}),
 ]
 ROT_VARIANTS = {
     "size": [{"max-size": "1mb", "old-files": "1"},
@@ -1776,7 +1857,8 @@ def random_handler(rng, fileno, valid_bias=0.85):
             h["encoding"] = enc
     elif not good:
         bad = rng.choice(["max-size", "old-files", "when", "delay",
-                          "encoding", "delay-false", "interval", "zero"])
+                          "encoding", "delay-false", "interval", "zero",
+                          "negative", "negative"])
         h.update({"max-size": {"max-size": rng.choice(["5kb", "3gb",
                                                        "2147483648"])},
                   "old-files": {"old-files": "2"},
@@ -1785,7 +1867,12 @@ def random_handler(rng, fileno, valid_bias=0.85):
                   "encoding": {"encoding": "utf-8"},
                   "delay-false": {"delay": "no"},
                   "interval": {"interval": "2"},
-                  "zero": {"max-size": "0", "old-files": "0"}}[bad])
+                  "zero": {"max-size": "0", "old-files": "0"},
+                  "negative": rng.choice([{"old-files": "-1"},
+                                          {"max-size": "-1kb"},
+                                          {"max-size": "-5"},
+                                          {"max-size": "-1",
+                                           "old-files": "-2"}])}[bad])
     if rng.random() < 0.6:
         h["level"] = random_level(rng)
     sf = rng.choice(SANE_FORMATS)
@@ -1974,6 +2061,14 @@ def core_formats(style):
             out += ["{%s}" % f, "{%s!r}" % f, "{%s:>10}" % f]
         else:
             out += ["$%s" % f, "${%s}" % f, "$$ $%s." % f]
+    # quotes, also around the whole format, are characters of the format
+    # (CSV-like layouts)
+    m, lv = {"classic": ("%(message)s", "%(levelname)s"),
+             "format": ("{message}", "{levelname}")}.get(
+                 style, ("${message}", "$levelname"))
+    out += ['"%s"' % m, "'%s'" % m, '"%s","%s"' % (lv, m),
+            '"%s' % m, '%s"' % m, '""%s""' % m, "'%s' \"%s\"" % (lv, m),
+            "= %s" % m, "%s # %s" % (lv, m)]
     return out
 
 
@@ -2221,6 +2316,8 @@ def run_case(env, case, res):
         run_seq_case(env, case, res)
     elif kind == "latedir":
         run_latedir_case(env, case, res)
+    elif kind == "obstacle":
+        run_obstacle_case(env, case, res)
     elif kind == "samepath":
         run_samepath_case(env, case, res)
     elif kind == "reentry":
@@ -2302,6 +2399,12 @@ def _run_shard(ctx):
             i += 1
             if ctx.mine(i):
                 run_case(env, case, res)
+        for case in latedir_cases():
+            # the same handler layouts, all built, with the later handlers'
+            # directory moved away during one reopenFiles()
+            i += 1
+            if ctx.mine(i):
+                run_case(env, dict(case, kind="obstacle"), res)
         for case in reentry_cases():
             i += 1
             if ctx.mine(i):
